@@ -27,6 +27,10 @@ def commit_raw_checks_before_publish(repo=None):
         rep["reason"] = "no copy_to_overlay call in commit_raw (code restructured)"
         return rep
     first_pub = min(pub)
+    if not checks:
+        # validation may have been moved into a helper: the text of commit_raw alone decides nothing
+        rep["reason"] = "no check(&self.options)? call in commit_raw (validation restructured): undecided by this text check"
+        return rep
     idx_ok = re.search(r"for\s+\w+\s+in\s+commit\.indexed\.values\(\)\s*\{[^}]*\.check\(", body_nc[:first_pub]) is not None
     bt_ok = re.search(r"for\s+\w+\s+in\s+commit\.btree_indexed\.values\(\)\s*\{[^}]*\.check\(", body_nc[:first_pub]) is not None
     if len([c for c in checks if c < first_pub]) < 2 or not idx_ok or not bt_ok:
